@@ -153,7 +153,9 @@ pub fn gen_case(r: &mut Rng) -> GCase {
     if !page_ids.is_empty() {
         for i in 0..r.usize_below(6) {
             let page = if r.chance(1, 6) { (0, 0) } else { *r.pick(&page_ids) };
-            let parent = if i > 0 && r.bool() { Some(r.usize_below(i)) } else { None };
+            // (one bookmark in six names a parent that does not exist: it is kept in the table but hangs outside the
+            // outline - its target has to follow a renumbering all the same)
+            let parent = if r.chance(1, 6) { Some(usize::MAX) } else if i > 0 && r.bool() { Some(r.usize_below(i)) } else { None };
             bookmarks.push((format!("bm{}", i), page, parent));
         }
     }
@@ -175,7 +177,7 @@ pub fn build(c: &GCase) -> Document {
     let mut doc = to_lo_doc(&c.model, false);
     let mut ids = vec![];
     for (title, page, parent) in &c.bookmarks {
-        let id = doc.add_bookmark(Bookmark::new(title.clone(), [0.0, 0.0, 0.0], 0, *page), parent.map(|p| ids[p]));
+        let id = doc.add_bookmark(Bookmark::new(title.clone(), [0.0, 0.0, 0.0], 0, *page), parent.map(|p| if p == usize::MAX { 9_999_999 } else { ids[p] }));
         ids.push(id);
     }
     doc
